@@ -35,10 +35,12 @@ ASSUMPTIONS = ["comparator looks at the key only and `not (pred(a,b) > 0)` is a 
                "a handle passed to push_ref is not currently in the queue (API contract; checked with node_is_in_queue)",
                "fewer than 2^63 operations (LEFT_OF/RIGHT_OF are modelled with their 64-bit wrap-around)",
                "allocation does not fail (aws_mem_acquire aborts on NULL)"]
-RULE = ("op sequences over one queue: push / push_ref / pop / top / remove / clear, keys 0..255 with many duplicates, "
+RULE = ("comparator style per case (three-way, boolean `a > b`, large-magnitude difference, zero-or-negative when not greater); "
+        "op sequences over one queue: push / push_ref / pop / top / remove / clear, keys 0..255 with many duplicates, "
         "element sizes {1,3,8,127,128,129,300}, dynamic and static storage, handles on arbitrary subsets with the first "
         "handle arriving late; non-trivial = >=6 pushes, >=1 handle push and >=1 pop/remove; distinct by op-file hash")
 
+CMP_STYLES = ["three", "bool", "bool", "diff", "lazy"]
 ISZ = [1, 8, 127, 128, 129, 300, 3]
 
 
@@ -56,12 +58,13 @@ def gen_case(rng, maxops):
     static = rng.random() < 0.2
     isz = rng.choice(ISZ)
     nh = rng.choice([0, 1, 2, 4, 8, 16, 32]) if not static else rng.choice([0, 0, 2])
+    style = rng.choice(CMP_STYLES)
     if static:
         cap = rng.choice([1, 2, 3, 5, 8, 13, 31])
-        ops = [f"init static {cap} {isz} {nh}"]
+        ops = [f"cmp {style}", f"init static {cap} {isz} {nh}"]
     else:
         cap = None
-        ops = [f"init dyn {rng.choice([0, 0, 1, 2, 7, 16, 40])} {isz} {nh}"]
+        ops = [f"cmp {style}", f"init dyn {rng.choice([0, 0, 1, 2, 7, 16, 40])} {isz} {nh}"]
     mode = rng.choice([0, 0, 1, 1, 2, 3])
     shape = rng.choice(["rand", "rand", "asc", "desc"])
     late = rng.randint(0, 12) if rng.random() < 0.7 else 0   # pushes before the first handle may appear
@@ -117,16 +120,16 @@ def gen_case(rng, maxops):
     if rng.random() < 0.5:
         # drain: every remaining element comes out in order
         ops += ["pop"] * (min(size_ub, 70) + 1)
-    return Case(ops, {"isz": isz, "static": static, "nh": nh})
+    return Case(ops, {"isz": isz, "static": static, "nh": nh, "cmp": style})
 
 
-def exhaustive_cases(prefix, depth, isz=8, storage="dyn 0"):
+def exhaustive_cases(prefix, depth, isz=8, storage="dyn 0", style="three"):
     """all op sequences of the given length over {push 0/1, pushref 0/1 h0/h1, pop, top, remove h0/h1, clear}"""
     alphabet = ["push 0", "push 1", "pushref 0 h0", "pushref 1 h0", "pushref 0 h1", "pushref 1 h1",
                 "pop", "remove h0", "remove h1", "clear"]
     out = []
     for seq in itertools.product(alphabet, repeat=depth):
-        out.append(Case([f"init {storage} {isz} 2"] + prefix + list(seq), {"isz": isz, "exhaustive": True, "nh": 2, "static": storage.startswith("static")}))
+        out.append(Case([f"cmp {style}", f"init {storage} {isz} 2"] + prefix + list(seq), {"isz": isz, "exhaustive": True, "nh": 2, "static": storage.startswith("static")}))
     return out
 
 
@@ -136,7 +139,8 @@ PREFILL = ["push 1", "push 0", "push 1", "pushref 1 h0", "push 0", "pushref 0 h1
 def gen_cases(rng, tier):
     n = 3000 if tier == "quick" else 40000
     cases = [gen_case(rng, rng.choice([12, 40, 90, 160])) for _ in range(n)]
-    cases += exhaustive_cases([], 3) + exhaustive_cases(PREFILL, 3, isz=129) + exhaustive_cases([], 3, isz=1, storage="static 2")
+    cases += exhaustive_cases([], 3) + exhaustive_cases(PREFILL, 3, isz=129, style="bool") + \
+        exhaustive_cases([], 3, isz=1, storage="static 2", style="lazy") + exhaustive_cases(PREFILL, 2, isz=8, style="diff")
     if tier == "thorough":
         cases += exhaustive_cases([], 5) + exhaustive_cases(PREFILL, 4, isz=129) + exhaustive_cases([], 4, isz=300, storage="static 3")
     return cases
@@ -183,6 +187,10 @@ def _oracle(case, lines):
     nh = 0
     for op in case.ops:
         t = op.split()
+        if t[0] == "cmp":
+            if len(t) != 2 or t[1] not in ("three", "bool", "diff", "lazy"):
+                nxt()
+            continue
         if t[0] == "init":
             if len(t) != 5 or t[1] not in ("dyn", "static"):
                 nxt(); continue
@@ -335,6 +343,7 @@ def distribution(cases, c_out):
                 maxsize = max(maxsize, len(l.split()) - 2)
     out = dict(d)
     out["isz_cases"] = dict(isz)
+    out["cmp_style_cases"] = dict(Counter(str(c.tags.get("cmp", "three")) for c in cases))
     out["max_heap_size"] = maxsize
     return out
 
